@@ -50,6 +50,21 @@ def _known_with_local(prop, _orig=core.load_known):
 core.load_known = _known_with_local
 
 
+KNOWN_TRIGGERS = {F10, F11, F11B}
+KEEP_PER_KNOWN = 5
+
+
+def fail(report, clause, trigger, case, impl=None, detail=""):
+    """report.fail, but a known finding is recorded only a few times: core.Report keeps at most 200 failures and an
+    unknown one must never be crowded out by the (frequent) known ones"""
+    if trigger in KNOWN_TRIGGERS:
+        n = report.distribution.get(f"known:{clause}:{trigger}", 0)
+        report.count(f"known:{clause}:{trigger}")
+        if n >= KEEP_PER_KNOWN:
+            return
+    report.fail(clause, trigger, case, impl, detail)
+
+
 def translate():
     from translator import registry
 
@@ -171,12 +186,12 @@ def check_ambiguity(ctx, report, case, cv_json, is_max, etas, normalization, imp
         report.hit("ambiguity_def:max_measure")
     if r["def_bad"] is not None:
         trig = F10 if (is_max and r["min_counts_differ"]) else ("normalised_value" if normalization else "count")
-        report.fail("ambiguity_def", trig, case, impl, f"first differing pixel {r['def_bad']}; spec band {r['spec_band']}")
+        fail(report, "ambiguity_def", trig, case, impl, f"first differing pixel {r['def_bad']}; spec band {r['spec_band']}")
     if normalization:
         report.hit("ambiguity_normalised_range")
         if r["range_bad"] is not None:
             trig = F11 if r["clipped_constant"] else "value_outside_unit_interval"
-            report.fail("ambiguity_normalised_range", trig, case, impl, f"pixel {r['range_bad']} is not a finite value of [0,1]")
+            fail(report, "ambiguity_normalised_range", trig, case, impl, f"pixel {r['range_bad']} is not a finite value of [0,1]")
         if r["clipped_constant"]:
             report.count("normalised_constant_maps")
     return True
@@ -205,13 +220,15 @@ def check_risk(ctx, report, case, cv_json, is_max, etas, impl_max, impl_min, exa
     report.hit("risk_order")
     if r["def_bad"] is not None:
         trig = F10 if (is_max and r["min_best_differs"]) else "value"
-        report.fail("risk_def", trig, case, [imx, imn], f"first differing pixel {r['def_bad']}; spec {r['spec_max']} {r['spec_min']}")
+        fail(report, "risk_def", trig, case, [imx, imn], f"first differing pixel {r['def_bad']}; spec {r['spec_max']} {r['spec_min']}")
     if r["order_bad"] is not None:
-        report.fail("risk_order", "order", case, [imx, imn], f"pixel {r['order_bad']}: not 0 <= risk_min <= risk_max (or NaN misplaced)")
+        fail(report, "risk_order", "order", case, [imx, imn], f"pixel {r['order_bad']}: not 0 <= risk_min <= risk_max (or NaN misplaced)")
     return True
 
 
-def check_bounds(ctx, report, case, cv_json, is_max, thr, disp, impl_inf, impl_sup, impl_wta, exact, mthr, regularised=False):
+def check_bounds(ctx, report, case, cv_json, is_max, thr, disp, impl_inf, impl_sup, impl_wta, exact, mthr, regularised=False,
+                 bracket=True):
+    """bracket=False for bounds regularised with a quantile below 1: they may legitimately exclude the winner"""
     iinf, isup, iw = enc_grid(impl_inf), enc_grid(impl_sup), enc_grid(impl_wta)
     r = ctx.lean.call("C12.bounds", cv=cv_json, is_max=is_max, threshold=core.enc(thr), disp=[core.enc(d) for d in disp],
                       impl_inf=iinf, impl_sup=isup, impl_wta=iw)
@@ -223,12 +240,13 @@ def check_bounds(ctx, report, case, cv_json, is_max, thr, disp, impl_inf, impl_s
             report.disagree("interval_bounds", case, [iinf, isup], [r["model_inf"], r["model_sup"]])
         report.hit("bounds_def")
         if r["def_bad"] is not None:
-            report.fail("bounds_def", "value", case, [iinf, isup], f"pixel {r['def_bad']}: not the extreme disparities reaching the threshold")
+            fail(report, "bounds_def", "value", case, [iinf, isup], f"pixel {r['def_bad']}: not the extreme disparities reaching the threshold")
     if not grids_equal(iw, r["model_wta"]):
         report.disagree("wta", case, iw, r["model_wta"])
-    report.hit("bounds_bracket_wta")
-    if r["bracket_bad"] is not None:
-        report.fail("bounds_bracket_wta", "regularised" if regularised else "raw", case, [iinf, isup, iw],
+    if bracket:
+        report.hit("bounds_bracket_wta")
+    if bracket and r["bracket_bad"] is not None:
+        fail(report, "bounds_bracket_wta", "regularised" if regularised else "raw", case, [iinf, isup, iw],
                     f"pixel {r['bracket_bad']}: winner outside [inf, sup]")
     return r
 
@@ -289,18 +307,18 @@ def frame_checks(report, case, base, cv, wta0, disp0, names):
     """cost volume untouched, band names, later winner-takes-all and validity mask unchanged"""
     report.hit("cv_same")
     if not same_float_arrays(base["cost_volume"].data, cv["cost_volume"].data):
-        report.fail("cv_same", "kernel", case, None, "the cost volume differs after the confidence step")
+        fail(report, "cv_same", "kernel", case, None, "the cost volume differs after the confidence step")
     got = [n for n, _ in cf.bands_of(cv)]
     report.hit("bands_appended_named")
     if got != names:
-        report.fail("bands_appended_named", "kernel", case, got, f"expected {names}")
+        fail(report, "bands_appended_named", "kernel", case, got, f"expected {names}")
     wta1, disp1 = cf.run_wta(cv)
     report.hit("later_disp_flags_same")
     if not same_float_arrays(wta0, wta1) or not same_float_arrays(disp0["validity_mask"].data, disp1["validity_mask"].data):
-        report.fail("later_disp_flags_same", "kernel", case, enc_grid(wta1), "disparity map or validity mask differs")
+        fail(report, "later_disp_flags_same", "kernel", case, enc_grid(wta1), "disparity map or validity mask differs")
     db = cf.bands_of(disp1)
     if [n for n, _ in db] != got or not all(same_float_arrays(a[1], b[1]) for a, b in zip(db, cf.bands_of(cv))):
-        report.fail("bands_appended_named", "disparity_dataset", case, [n for n, _ in db], "disparity dataset bands differ from the cost volume's")
+        fail(report, "bands_appended_named", "disparity_dataset", case, [n for n, _ in db], "disparity dataset bands differ from the cost volume's")
 
 
 DYADIC_ETA = [(Fraction(1, 2), Fraction(1, 4)), (Fraction(3, 4), Fraction(1, 4)), (Fraction(3, 4), Fraction(1, 8)),
@@ -399,7 +417,7 @@ def check_regul(ctx, report, case):
     if q == 1:
         report.hit("quantile1_widens")
         if not r["widened"]:
-            report.fail("quantile1_widens", "direct", case, [ia, ib], "a finite bound moved inwards or became NaN")
+            fail(report, "quantile1_widens", "direct", case, [ia, ib], "a finite bound moved inwards or became NaN")
 
 
 def gen_regul_case(rng):
@@ -448,10 +466,10 @@ def check_std(ctx, report, case):
         report.disagree("std_intensity", case, enc_grid(impl), r["model_var"])
     report.hit("std_def")
     if not close(np.asarray(impl), spec_std):
-        report.fail("std_def", "value", case, enc_grid(impl), "band is not the standard deviation of the centred window (NaN on the frame)")
+        fail(report, "std_def", "value", case, enc_grid(impl), "band is not the standard deviation of the centred window (NaN on the frame)")
     names = [n for n, _ in cf.bands_of(cv)]
     if names != ["confidence_from_intensity_std"]:
-        report.fail("bands_appended_named", "std", case, names)
+        fail(report, "bands_appended_named", "std", case, names)
 
 
 def gen_std_case(rng):
@@ -493,11 +511,11 @@ def check_allocate(ctx, report, case):
     if cv is None:
         # the model covers the cost-volume-present situations (every confidence step has one); only the frame is checked
         if c2 is not None:
-            report.fail("cv_same", "allocate_none_cv", case, None, "a cost volume appeared")
+            fail(report, "cv_same", "allocate_none_cv", case, None, "a cost volume appeared")
         got = bands_json(cf.bands_of(d2))
         want_names = ([b["name"] for b in case["disp_bands"]] if case["disp_bands"] else []) + ["confidence_from_" + case["name"]]
         if d2 is not None and [b["name"] for b in got] != want_names:
-            report.fail("bands_appended_named", "allocate_none_cv", case, got)
+            fail(report, "bands_appended_named", "allocate_none_cv", case, got)
         return
     r = ctx.lean.call("C12.allocate", name=case["name"], map=case["map"], cv_bands=case["cv_bands"],
                       disp_kind=case["disp_kind"], disp_bands=case["disp_bands"])
@@ -510,20 +528,20 @@ def check_allocate(ctx, report, case):
     report.hit("existing_bands_same")
     report.hit("bands_appended_named")
     if got_cv[: len(old)] != old:
-        report.fail("existing_bands_same", "allocate_cv", case, got_cv)
+        fail(report, "existing_bands_same", "allocate_cv", case, got_cv)
     if [b["name"] for b in got_cv[len(old):]] != ["confidence_from_" + case["name"]] or got_cv[-1]["data"] != case["map"]:
-        report.fail("bands_appended_named", "allocate_cv", case, got_cv)
+        fail(report, "bands_appended_named", "allocate_cv", case, got_cv)
     if case["disp_kind"] != "none":
         oldd = case["disp_bands"]
         if oldd is not None:
             if got_d[: len(oldd)] != oldd:
-                report.fail("existing_bands_same", "allocate_disp", case, got_d)
+                fail(report, "existing_bands_same", "allocate_disp", case, got_d)
             if [b["name"] for b in got_d[len(oldd):]] != ["confidence_from_" + case["name"]] or got_d[-1]["data"] != case["map"]:
-                report.fail("bands_appended_named", "allocate_disp", case, got_d)
+                fail(report, "bands_appended_named", "allocate_disp", case, got_d)
         elif got_d != got_cv:
-            report.fail("bands_appended_named", "allocate_disp_empty", case, got_d)
+            fail(report, "bands_appended_named", "allocate_disp_empty", case, got_d)
     if not same_float_arrays(cost_before, c2["cost_volume"].data):
-        report.fail("cv_same", "allocate", case, None)
+        fail(report, "cv_same", "allocate", case, None)
 
 
 def gen_allocate_case(rng):
@@ -572,8 +590,16 @@ def check_pipeline(ctx, report, case):
     with_conf.update(json.loads(json.dumps(tail)))
     without = {"matching_cost": dict(mc)}
     without.update(json.loads(json.dumps(tail)))
+    try:
+        l0, r0, m0 = cf.run_pipeline(left, right, dmin, dmax, without, ml)
+    except cf.ImplRaised as exc:
+        # the pipeline fails without any confidence step (e.g. image too small for the window and the disparity
+        # range): outside this property's domain
+        report.case(key=key_of(case), nontrivial=False)
+        report.count("pipeline_rejected_without_confidence_steps")
+        report.notes.append(f"pipeline without confidence steps raised: {exc}"[:300]) if len(report.notes) < 5 else None
+        return
     l1, r1, m1 = cf.run_pipeline(left, right, dmin, dmax, with_conf, ml)
-    l0, r0, m0 = cf.run_pipeline(left, right, dmin, dmax, without, ml)
     report.case(key=key_of(case), nontrivial=len(steps) > 0,
                 sample={"kind": "pipeline", "shape": list(left.shape), "measure": mc["matching_cost_method"],
                         "steps": [n for n, _ in steps], "validation": bool(case.get("validation"))})
@@ -586,12 +612,12 @@ def check_pipeline(ctx, report, case):
     for side, d1, d0, cv1, cv0 in sides:
         report.hit("cv_same")
         if not same_float_arrays(cv1["cost_volume"].data, cv0["cost_volume"].data):
-            report.fail("cv_same", "pipeline_" + side, case, None, "cost volume differs from the run without the confidence steps")
+            fail(report, "cv_same", "pipeline_" + side, case, None, "cost volume differs from the run without the confidence steps")
         report.hit("later_disp_flags_same")
         if not same_float_arrays(d1["disparity_map"].data, d0["disparity_map"].data):
-            report.fail("later_disp_flags_same", "disparity_" + side, case, enc_grid(d1["disparity_map"].data))
+            fail(report, "later_disp_flags_same", "disparity_" + side, case, enc_grid(d1["disparity_map"].data))
         if not same_float_arrays(d1["validity_mask"].data, d0["validity_mask"].data):
-            report.fail("later_disp_flags_same", "validity_mask_" + side, case, enc_grid(d1["validity_mask"].data.astype(np.float64)))
+            fail(report, "later_disp_flags_same", "validity_mask_" + side, case, enc_grid(d1["validity_mask"].data.astype(np.float64)))
     # ---- existing bands untouched by each step, on the four datasets
     for snap in m1.snaps:
         report.hit("existing_bands_same")
@@ -600,9 +626,9 @@ def check_pipeline(ctx, report, case):
             if before is None or after is None:
                 continue
             if [(n, enc_grid(d)) for n, d in after[: len(before)]] != [(n, enc_grid(d)) for n, d in before]:
-                report.fail("existing_bands_same", "pipeline_" + key, case, [n for n, _ in after], f"step {snap['step']}")
+                fail(report, "existing_bands_same", "pipeline_" + key, case, [n for n, _ in after], f"step {snap['step']}")
         if not same_float_arrays(snap["before"]["left_cost"], snap["left_cost"]):
-            report.fail("cv_same", "pipeline_step", case, None, f"step {snap['step']} changed the cost volume")
+            fail(report, "cv_same", "pipeline_step", case, None, f"step {snap['step']} changed the cost volume")
     # ---- names
     expected, by_step = [], []
     for name, cfg in steps:
@@ -619,16 +645,16 @@ def check_pipeline(ctx, report, case):
                 report.disagree("band_names_" + side, case, got, model_names)
             wrong = [by_step[i][0] for i in range(min(len(got), len(expected))) if got[i] != expected[i]]
             trig = F11B if (len(got) == len(expected) and wrong and all(w.count(".") >= 2 for w in wrong)) else "names_" + side
-            report.fail("bands_appended_named", trig, case, got, f"expected {expected}")
+            fail(report, "bands_appended_named", trig, case, got, f"expected {expected}")
         dgot = [n for n, _ in cf.bands_of(d1)]
         base = [n for n, _ in cf.bands_of(d0)]  # bands other steps add to the disparity dataset (validation)
         extra = dgot[len(got):]
         if dgot[: len(got)] != got or extra != base:
-            report.fail("bands_appended_named", "disparity_dataset_" + side, case, dgot, f"cost volume bands {got}, other bands {base}")
+            fail(report, "bands_appended_named", "disparity_dataset_" + side, case, dgot, f"cost volume bands {got}, other bands {base}")
         # the disparity dataset carries the same band values as the cost volume
         cvb, db = cf.bands_of(cv1), cf.bands_of(d1)
         if not all(same_float_arrays(a[1], b[1]) for a, b in zip(cvb, db)):
-            report.fail("existing_bands_same", "disparity_dataset_values_" + side, case, dgot)
+            fail(report, "existing_bands_same", "disparity_dataset_values_" + side, case, dgot)
     # ---- band values (left side, and right side when computed) against the definitions
     for side, d1, d0, cv1, cv0 in sides:
         check_pipeline_bands(ctx, report, case, side, steps, cv1, d1, left if side == "left" else right, mc)
@@ -678,7 +704,8 @@ def check_pipeline_bands(ctx, report, case, side, steps, cv1, d1, img, mc):
                 continue
             thr = cf.f32(cfg.get("possibility_threshold", 0.9))
             reg = cfg.get("regularization", False)
-            r = check_bounds(ctx, report, sub, cv_json, is_max, thr, disp, bi, bs, wta, exact, mthr, regularised=reg)
+            r = check_bounds(ctx, report, sub, cv_json, is_max, thr, disp, bi, bs, wta, exact, mthr, regularised=reg,
+                             bracket=(not reg) or cfg.get("quantile_regularization", 1.0) == 1.0)
             if not reg:
                 raw_bounds[float(thr)] = (bi, bs)
             elif r is not None and cfg.get("quantile_regularization", 1.0) == 1.0 and float(thr) in raw_bounds:
@@ -687,7 +714,7 @@ def check_pipeline_bands(ctx, report, case, side, steps, cv1, d1, img, mc):
                                   quantile=1, impl_inf=enc_grid(bi), impl_sup=enc_grid(bs))
                 report.hit("quantile1_widens")
                 if not w["widened"]:
-                    report.fail("quantile1_widens", "pipeline", sub, [enc_grid(bi), enc_grid(bs)])
+                    fail(report, "quantile1_widens", "pipeline", sub, [enc_grid(bi), enc_grid(bs)])
                 # correspondence of the regularised step: model regularisation of the implementation's raw bounds
                 amb_name = "confidence_from_ambiguity" + ("." + cfg["ambiguity_indicator"] if cfg.get("ambiguity_indicator") else "")
                 amb = by_name.get(amb_name)
@@ -709,7 +736,7 @@ def check_pipeline_bands(ctx, report, case, side, steps, cv1, d1, img, mc):
             ok = arrays_close(b, spec_std, tol)
             report.hit("std_def")
             if not ok:
-                report.fail("std_def", "pipeline_" + side, sub, enc_grid(b))
+                fail(report, "std_def", "pipeline_" + side, sub, enc_grid(b))
 
 
 def gen_pipeline_case(rng):
@@ -797,7 +824,7 @@ def check_case(ctx, report, case):
     except cf.ImplRaised as exc:
         # the implementation raised on an input of the property's domain: no band was appended
         report.case(key=key_of(case), nontrivial=True)
-        report.fail(CRASH_CLAUSE[case["kind"]], f"raises_{exc.kind}_in_{exc.where}", case, None, str(exc)[:500])
+        fail(report, CRASH_CLAUSE[case["kind"]], f"raises_{exc.kind}_in_{exc.where}", case, None, str(exc)[:500])
 
 
 def translator_cross_check(report, status):
@@ -842,17 +869,17 @@ def run(ctx, report, status):
     for name, case in core.load_corpus(PROP):
         check_case(ctx, report, case.get("input", case))
         report.count("corpus_cases")
-    for _ in range(ctx.n(70, 1500)):
+    for _ in range(ctx.n(110, 1500)):
         check_case(ctx, report, gen_kernel_case(rng))
-    for _ in range(ctx.n(12, 200)):
+    for _ in range(ctx.n(16, 200)):
         check_case(ctx, report, gen_kernel_case(rng, default_eta=True))
-    for _ in range(ctx.n(60, 1500)):
+    for _ in range(ctx.n(100, 1500)):
         check_case(ctx, report, gen_regul_case(rng))
-    for _ in range(ctx.n(25, 400)):
+    for _ in range(ctx.n(30, 400)):
         check_case(ctx, report, gen_std_case(rng))
     for _ in range(ctx.n(40, 400)):
         check_case(ctx, report, gen_allocate_case(rng))
-    for _ in range(ctx.n(25, 400)):
+    for _ in range(ctx.n(40, 400)):
         check_case(ctx, report, gen_pipeline_case(rng))
 
 
